@@ -35,48 +35,48 @@ def book_jobs(pid, tier, seed):
         if not q:
             J += [tree("C01", 4, 2, 4)]
         for L in (1, 3, 10, 24):
-            J.append(rnd("C01", seed + L, n(600, 12000), n(80, 400), L))
+            J.append(rnd("C01", seed + L, n(600, 4000), n(80, 250), L))
     elif pid == "C02":
         J += [tree("C04", 3, 2, 3), tree("C13", 3, 1, 2, trading=0)]
         for L in (1, 2, 3, 4, 10, 24):
-            J.append(rnd("C02", seed + L, n(400, 8000), n(80, 300), L))
-        J.append(rnd("C05", seed + 7, n(300, 6000), 60, 4, name="rnd-ties-L4"))
+            J.append(rnd("C02", seed + L, n(400, 3000), n(80, 200), L))
+        J.append(rnd("C05", seed + 7, n(300, 3000), 60, 4, name="rnd-ties-L4"))
     elif pid == "C03":
         J += [tree("C04", 3, 1, 2), tree("C06", 3, 2, 3)]
         for L in (1, 3, 10):
-            J.append(rnd("C03", seed + L, n(700, 12000), n(80, 400), L))
+            J.append(rnd("C03", seed + L, n(700, 4000), n(80, 250), L))
     elif pid == "C04":
         J += [tree("C04", 3, 1, 3), tree("C04", 3, 2, 2, trading=0)]
         if not q:
             J += [tree("C04", 4, 1, 2, reduced=1)]
         for L in (1, 3, 10):
-            J.append(rnd("C04", seed + L, n(700, 12000), n(80, 300), L))
-        J.append(rnd("MAL", seed + 9, n(500, 8000), 60, 3, name="rnd-malformed-L3"))
+            J.append(rnd("C04", seed + L, n(700, 4000), n(80, 200), L))
+        J.append(rnd("MAL", seed + 9, n(500, 4000), 60, 3, name="rnd-malformed-L3"))
     elif pid == "C05":
         J += [tree("C05", 3, 1, 3), tree("C05", n(4, 5), 2, 2, reduced=1)]
         for L in (1, 3, 10):
-            J.append(rnd("C05", seed + L, n(700, 12000), n(80, 300), L))
+            J.append(rnd("C05", seed + L, n(700, 4000), n(80, 200), L))
     elif pid == "C06":
         J += [tree("C06", 3, 1, 3), tree("C06", 3, 3, 2)]
         if not q:
             J += [tree("C06", 4, 2, 3, reduced=1)]
         for L in (1, 3, 10):
-            J.append(rnd("C06", seed + L, n(700, 12000), n(80, 300), L))
+            J.append(rnd("C06", seed + L, n(700, 4000), n(80, 200), L))
     elif pid == "C07":
         J += [tree("C04", 3, 1, 3)]
         for L in (1, 3, 10, 24):
-            J.append(rnd("C07", seed + L, n(500, 8000), n(80, 300), L))
-        J.append(rnd("C05", seed + 5, n(400, 6000), 60, 4, name="rnd-ties-L4"))
+            J.append(rnd("C07", seed + L, n(500, 3000), n(80, 200), L))
+        J.append(rnd("C05", seed + 5, n(400, 3000), 60, 4, name="rnd-ties-L4"))
     elif pid == "C12":
         J += [tree("C12", 3, 2, 3), tree("C12", 3, 5, 2)]
         for L in (1, 3, 10, 24):
-            J.append(rnd("C12", seed + L, n(600, 10000), n(80, 300), L))
+            J.append(rnd("C12", seed + L, n(600, 4000), n(80, 200), L))
     elif pid == "C13":
         J += [tree("C13", 3, 1, 3), tree("C13", 3, 2, 2, trading=0)]
         if not q:
             J += [tree("C13", 4, 1, 2, reduced=1)]
         for L in (1, 3, 10):
-            J.append(rnd("C13", seed + L, n(700, 12000), n(80, 300), L))
+            J.append(rnd("C13", seed + L, n(700, 4000), n(80, 200), L))
     return J
 
 
@@ -216,26 +216,26 @@ def env_jobs(pid, tier, seed):
     q = tier == "quick"
     n = (lambda a, b: a if q else b)
     if pid == "C08":
-        return [envjob("env-batches", 0, seed, n(1200, 30000), maxbatch=6, rounds=6),
-                envjob("menv-batches", 1, seed + 1, n(1200, 30000), maxbatch=7, rounds=5),
-                envjob("env-bigstep-smallbatch", 0, seed + 2, n(600, 10000), maxbatch=3, rounds=8, smallstep=1)]
+        return [envjob("env-batches", 0, seed, n(1200, 12000), maxbatch=6, rounds=6),
+                envjob("menv-batches", 1, seed + 1, n(1200, 12000), maxbatch=7, rounds=5),
+                envjob("env-bigstep-smallbatch", 0, seed + 2, n(600, 6000), maxbatch=3, rounds=8, smallstep=1)]
     if pid == "C05":
-        return [envjob("env-overfull", 0, seed + 11, n(900, 20000), maxbatch=8, rounds=6, smallstep=1),
-                envjob("menv-overfull", 1, seed + 12, n(700, 15000), maxbatch=8, rounds=5, smallstep=1)]
+        return [envjob("env-overfull", 0, seed + 11, n(900, 8000), maxbatch=8, rounds=6, smallstep=1),
+                envjob("menv-overfull", 1, seed + 12, n(700, 6000), maxbatch=8, rounds=5, smallstep=1)]
     if pid == "C10":
-        return [envjob("env-submissions", 0, seed, n(1200, 30000), maxbatch=9, rounds=5),
-                envjob("menv-submissions", 1, seed + 1, n(1200, 30000), maxbatch=9, rounds=5)]
+        return [envjob("env-submissions", 0, seed, n(1200, 12000), maxbatch=9, rounds=5),
+                envjob("menv-submissions", 1, seed + 1, n(1200, 12000), maxbatch=9, rounds=5)]
     if pid == "C11":
-        return [envjob("env-asym", 0, seed, n(1200, 30000), maxbatch=6, rounds=7, asym=1),
-                envjob("menv-asym", 1, seed + 1, n(1200, 30000), maxbatch=6, rounds=6, asym=1),
-                envjob("env-mixed", 0, seed + 2, n(800, 20000), maxbatch=6, rounds=7)]
+        return [envjob("env-asym", 0, seed, n(1200, 12000), maxbatch=6, rounds=7, asym=1),
+                envjob("menv-asym", 1, seed + 1, n(1200, 12000), maxbatch=6, rounds=6, asym=1),
+                envjob("env-mixed", 0, seed + 2, n(800, 8000), maxbatch=6, rounds=7)]
     if pid == "C14":
-        return [envjob("market-direct", 2, seed, n(1500, 40000)),
-                envjob("menv-shuffled", 1, seed + 1, n(1200, 30000), maxbatch=8, rounds=5)]
+        return [envjob("market-direct", 2, seed, n(1500, 15000)),
+                envjob("menv-shuffled", 1, seed + 1, n(1200, 12000), maxbatch=8, rounds=5)]
     if pid == "C15":
-        return [envjob("env-distinct-batches", 0, seed, n(2500, 120000), maxbatch=n(16, 64), rounds=4, distinct=1, toggles=0),
-                envjob("menv-distinct-batches", 1, seed + 1, n(2500, 120000), maxbatch=n(16, 64), rounds=4, distinct=1, toggles=0),
-                envjob("env-mixed-kinds", 0, seed + 2, n(1000, 40000), maxbatch=8, rounds=5)]
+        return [envjob("env-distinct-batches", 0, seed, n(2500, 40000), maxbatch=n(16, 64), rounds=4, distinct=1, toggles=0),
+                envjob("menv-distinct-batches", 1, seed + 1, n(2500, 40000), maxbatch=n(16, 64), rounds=4, distinct=1, toggles=0),
+                envjob("env-mixed-kinds", 0, seed + 2, n(1000, 12000), maxbatch=8, rounds=5)]
     return []
 
 
